@@ -63,6 +63,8 @@ def run(ctx):
     table(ctx, model, parser)
     relchain(ctx, model)
     boolean(ctx, model)
+    from .common import numeric_order_not_textual
+    numeric_order_not_textual(ctx, model, P, "C02.kind")
     arithmetic(ctx, model)
     negtwin(ctx, model)
 
